@@ -74,7 +74,7 @@ def sensitivity(props=None, verbose=True):
 JOBS = int(os.environ.get("TCSS_JOBS", "6"))
 
 
-def neutrality(props=None, verbose=True):
+def neutrality(props=None, verbose=True, sample=None):
     """Items run JOBS at a time (each on its own scratch copy; fact extraction is serialised by the extractor's lock, the
     checks themselves overlap)."""
     import neutral
@@ -85,6 +85,15 @@ def neutrality(props=None, verbose=True):
         ps = [p for p in (nt.get("props") or allp) if props is None or p in props]
         if ps:
             todo.append((nid, nt, ps))
+    if sample is not None:
+        # thorough tier of one property: all scripted edits plus a seeded sample of the independent patches (the full set is
+        # `tools/battery.py neutrality`); keeps a cold thorough run within minutes
+        import random
+        seed, n = sample
+        scripted = [x for x in todo if not x[0].startswith("patch-")]
+        patches = [x for x in todo if x[0].startswith("patch-")]
+        rnd = random.Random(seed)
+        todo = scripted + sorted(rnd.sample(patches, min(n, len(patches))), key=lambda x: x[0])
 
     def one(item):
         nid, nt, ps = item
